@@ -137,6 +137,159 @@ theorem decimal_digits (n : Nat) : ∀ c ∈ decimal n, (48 ≤ c && c ≤ 57) =
   simp only [Bool.and_eq_true, decide_eq_true_eq]
   exact ⟨h1, h2⟩
 
+/-! ### what `try_add_constant` / `register_mangled` may change, and why the loop ends -/
+
+/-- the only change `try_add_constant(name, obj) == True` may make: `(name, obj)` appended to the constants,
+    and only if `name` was unbound -/
+def Frame (ns ns' : Namespace) (name : Str) (obj : Nat) : Prop :=
+  ns'.outer = ns.outer ∧ ns'.occupied = ns.occupied ∧ ns'.variables = ns.variables
+  ∧ ns'.allowBuiltins = ns.allowBuiltins
+  ∧ (ns'.constants = ns.constants
+     ∨ (lookupName ns.constants name = none ∧ ns'.constants = ns.constants ++ [(name, obj)]))
+
+theorem tryAddConstant_frame (builtins : List Str) (ns ns1 : Namespace) (n : Str) (obj : Nat)
+    (hadd : ns.tryAddConstant builtins n obj = (true, ns1)) : Frame ns ns1 n obj := by
+  unfold Namespace.tryAddConstant at hadd
+  split at hadd
+  · simp at hadd
+  · cases hl : lookupName ns.constants n with
+    | none =>
+      rw [hl] at hadd
+      simp at hadd
+      subst hadd
+      exact ⟨rfl, rfl, rfl, rfl, Or.inr ⟨hl, rfl⟩⟩
+    | some o =>
+      rw [hl] at hadd
+      simp at hadd
+      obtain ⟨_, hns⟩ := hadd
+      subst hns
+      exact ⟨rfl, rfl, rfl, rfl, Or.inl rfl⟩
+
+theorem mangleLoop_frame (builtins : List Str) (ns : Namespace) (base : Str) (obj : Nat) :
+    ∀ fuel i name ns', mangleLoop builtins ns base obj fuel i = some (name, ns') → Frame ns ns' name obj := by
+  intro fuel
+  induction fuel with
+  | zero => intro i name ns' h; simp [mangleLoop] at h
+  | succ f ih =>
+    intro i name ns' h
+    unfold mangleLoop at h
+    simp only at h
+    split at h
+    · rename_i ns1 hadd
+      simp at h
+      obtain ⟨hn, hns⟩ := h
+      subst hn; subst hns
+      exact tryAddConstant_frame builtins ns ns1 _ obj hadd
+    · exact ih (i + 1) name ns' h
+
+/-- a frame keeps every existing binding -/
+theorem Frame.keeps {ns ns' : Namespace} {name : Str} {obj : Nat} (h : Frame ns ns' name obj)
+    (n : Str) (o : Nat) (hb : lookupName ns.constants n = some o) : lookupName ns'.constants n = some o := by
+  obtain ⟨_, _, _, _, hc | ⟨_, hc⟩⟩ := h
+  · rw [hc]; exact hb
+  · rw [hc]
+    unfold lookupName at hb ⊢
+    rw [List.find?_append]
+    cases hf : ns.constants.find? (fun e => e.1 == n) with
+    | none => simp [hf] at hb
+    | some e => simpa [hf] using hb
+
+/-- a refused name is one of the finitely many blockers -/
+theorem tryAddConstant_refused (builtins : List Str) (ns : Namespace) (n : Str) (obj : Nat)
+    (h : (ns.tryAddConstant builtins n obj).1 = false) : n ∈ ns.blockers builtins := by
+  unfold Namespace.tryAddConstant at h
+  unfold Namespace.blockers
+  split at h
+  · rename_i hcond
+    simp only [Bool.or_eq_true, Bool.and_eq_true, List.contains_eq_mem, decide_eq_true_eq] at hcond
+    rcases hcond with ((hocc | hvar) | hout) | hbi
+    · simp [hocc]
+    · simp [hvar]
+    · obtain ⟨o, ho⟩ := Option.isSome_iff_exists.mp hout
+      have := lookupName_some_mem ho
+      have hm : n ∈ ns.outer.map (·.1) := List.mem_map.mpr ⟨(n, o), this, rfl⟩
+      simp only [List.mem_append]
+      exact Or.inl (Or.inl (Or.inr hm))
+    · simp [hbi.1]
+  · cases hl : lookupName ns.constants n with
+    | none => rw [hl] at h; simp at h
+    | some o =>
+      have := lookupName_some_mem hl
+      have hm : n ∈ ns.constants.map (·.1) := List.mem_map.mpr ⟨(n, o), this, rfl⟩
+      simp only [List.mem_append]
+      exact Or.inr hm
+
+theorem mangleLoop_none_blocked (builtins : List Str) (ns : Namespace) (base : Str) (obj : Nat) :
+    ∀ fuel i, mangleLoop builtins ns base obj fuel i = none →
+      ∀ j, i ≤ j → j < i + fuel → base ++ 95 :: decimal j ∈ ns.blockers builtins := by
+  intro fuel
+  induction fuel with
+  | zero => intro i _ j h1 h2; omega
+  | succ f ih =>
+    intro i h j h1 h2
+    unfold mangleLoop at h
+    simp only at h
+    split at h
+    · simp at h
+    · rename_i ns1 hadd
+      by_cases hji : j = i
+      · subst hji
+        exact tryAddConstant_refused builtins ns _ obj (by rw [hadd])
+      · exact ih (i + 1) h j (by omega) (by omega)
+
+/-- more fuel never changes a result already found -/
+theorem mangleLoop_mono (builtins : List Str) (ns : Namespace) (base : Str) (obj : Nat) :
+    ∀ fuel i r, mangleLoop builtins ns base obj fuel i = some r →
+      ∀ k, mangleLoop builtins ns base obj (fuel + k) i = some r := by
+  intro fuel
+  induction fuel with
+  | zero => intro i r h; simp [mangleLoop] at h
+  | succ f ih =>
+    intro i r h k
+    have hk : f + 1 + k = (f + k) + 1 := by omega
+    rw [hk]
+    unfold mangleLoop at h ⊢
+    simp only at h ⊢
+    split
+    · rename_i ns1 hadd
+      rw [hadd] at h
+      exact h
+    · rename_i ns1 hadd
+      rw [hadd] at h
+      exact ih (i + 1) r h k
+
+theorem decimal_injective {a b : Nat} (h : decimal a = decimal b) : a = b := by
+  unfold decimal at h
+  have hinj : ∀ x y : Char, Char.toNat x = Char.toNat y → x = y := by
+    intro x y hxy
+    exact Char.ext (UInt32.toNat_inj.mp hxy)
+  have h2 : Nat.toDigits 10 a = Nat.toDigits 10 b := (List.map_inj_right hinj).mp h
+  have ha := @Nat.ofDigitChars_ten_toDigits a
+  have hb := @Nat.ofDigitChars_ten_toDigits b
+  rw [h2] at ha
+  omega
+
+/-- pigeonhole: a run of `n` pairwise distinct names inside a list needs `n ≤ length` -/
+theorem distinct_run_le_length (g : Nat → Str) (hg : ∀ a b, g a = g b → a = b) :
+    ∀ n (L : List Str) i, (∀ j, i ≤ j → j < i + n → g j ∈ L) → n ≤ L.length := by
+  intro n
+  induction n with
+  | zero => intro L i _; omega
+  | succ m ih =>
+    intro L i h
+    have hi : g i ∈ L := h i (Nat.le_refl _) (by omega)
+    have hpos : 0 < L.length := List.length_pos_of_mem hi
+    have hlen : (L.erase (g i)).length = L.length - 1 := List.length_erase_of_mem hi
+    have := ih (L.erase (g i)) (i + 1) (by
+      intro j h1 h2
+      have hj : g j ∈ L := h j (by omega) (by omega)
+      have hne : g j ≠ g i := by
+        intro heq
+        have := hg j i heq
+        omega
+      exact (List.mem_erase_of_ne hne).mpr hj)
+    omega
+
 theorem identShaped_ne_nil {idCont : Nat → Bool} {s : Str} (h : IdentShaped idCont s) : s ≠ [] := by
   intro hs; subst hs; exact h
 
